@@ -14,6 +14,7 @@ Not decided: that drawn vertices lie on the body and span it (geometry of the mo
 from __future__ import annotations
 
 import ast
+import re
 
 from callgraph import CallGraph
 from common import Finding, norm
@@ -270,6 +271,28 @@ def d3(repo, res):
     if not okc:
         res.add(Finding("D3c", rel, "get_rot_pos_from_path", grets[0] if grets else gfn, f"orientations and positions handed to the placement are not "
                         f"`obj._orientation[i]` / `obj._position[i]` of one object with one index array: {detail}"))
+    # ---- D4: every object of a (nested) collection is drawn: display code reaches children through children_all or a recursive helper
+    for m, qn, fn, cl in repo.all_functions():
+        if not m.name.startswith("magpylib._src.display"):
+            continue
+        recursive = any(isinstance(c, ast.Call) and isinstance(c.func, ast.Name) and c.func.id == fn.name for c in ast.walk(fn))
+        def direct_children(e):
+            t = ast.unparse(e)
+            return bool(re.search(r"\.children\b", t) or re.search(r"getattr\([^,]+, ['\"]children['\"]", t)) and "children_all" not in t
+        direct_names = {t_.id for a_ in ast.walk(fn) if isinstance(a_, ast.Assign) and direct_children(a_.value) for t_ in a_.targets if isinstance(t_, ast.Name)}
+        for n_ in ast.walk(fn):
+            it_ = n_.iter if isinstance(n_, (ast.For, ast.comprehension)) else None
+            if it_ is None:
+                continue
+            hit = direct_children(it_) or any(isinstance(x, ast.Name) and x.id in direct_names for x in ast.walk(it_))
+            # `getattr(obj, "children", None) is not None` style type tests are not iterations and never reach here
+            if hit:
+                res.ob(f"D4:{qn}:{norm(it_)}", recursive, {"rule": "D4", "function": qn, "iterates": norm(it_), "function_is_recursive": recursive})
+                if not recursive:
+                    res.add(Finding("D4", m.rel, qn, it_, "a non-recursive display function iterates over the direct children only: members of nested "
+                                    "collections would not be drawn", it_.lineno))
+    import rules_recfwd
+    rules_recfwd.recursive_forwarding(repo, res, "D4-fwd", lambda name: name.startswith("magpylib._src.display"))
     # ---- D3b: a placed model must not be placed again
     from flow import BaseClient, function_exits
     n_sites = 0
